@@ -193,7 +193,8 @@ def main(argv):
     for fid, vs in sorted(known.items()):
         kf = findings.by_id(fid)
         print(f"KNOWN-FINDING: property={pid} {fid} {kf['what']} (matched {len(vs)} recorded cases this run)")
-    os.makedirs(os.path.join(ROOT, "replays", pid), exist_ok=True)
+    rdir = os.environ.get("VERIF_REPLAY_DIR") or "replays"
+    os.makedirs(os.path.join(ROOT, rdir, pid), exist_ok=True)
     written = []
     shown = {}
     for v in new:
@@ -204,7 +205,7 @@ def main(argv):
         import hashlib
 
         h = hashlib.sha1(_vkey(v).encode()).hexdigest()[:12]
-        path = os.path.join("replays", pid, h + ".json")
+        path = os.path.join(rdir, pid, h + ".json")
         with open(os.path.join(ROOT, path), "w") as f:
             json.dump({"property": pid, "case": v["case"], "site": v.get("site"), "kind": v.get("kind"),
                        "observed": v.get("observed"), "expected": v.get("expected"), "detail": v.get("detail")},
